@@ -148,6 +148,7 @@ def vacuity(cases, strict):
     need += ['asm:reg-table-in-band', 'asm:reg-table-in-band-warned']
     need += ['%s:%s-table-%s' % (t, p, f) for t in ('asm', 'html') for p in ('par', 'reg', 'ins')
              for f in ('span-row', 'span-col', 'span-both', 'transparent', 'header-below-first-row')]
+    need += ['%s:%s-table-span-both-cells-to-the-right' % (t, p) for t in ('asm', 'html') for p in ('par', 'reg')]
     need += ['asm:table', 'html:table', 'skool:nowrap', 'asm:overlong-line', 'skool:overlong-line', 'asm:exactly-W',
              'skool:exactly-W', 'asm:warned', 'asm:table-line']
     missing = [k for k in need if not n[k]]
